@@ -382,6 +382,10 @@ func (x *Exec) doBinOp(st *State, b *ssa.BinOp) Value {
 			// 1 << k
 			p := x.uf("pow2", sInt, c)
 			st.assume(mkCmp(">=", p, tOne))
+			// exact values for small exponents
+			for k := int64(0); k <= 32; k++ {
+				st.assume(mkImplies(mkEq(c, mkInt(k)), mkEq(p, mkBig(pow2(k)))))
+			}
 			// monotone bounds for the exponents that occur as limits in the code
 			for _, k := range []int64{8, 12, 16, 20, 24, 28, 32, 48, 62} {
 				st.assume(mkImplies(mkAnd(mkCmp("<=", tZero, c), mkCmp("<=", c, mkInt(k))), mkCmp("<=", p, mkBig(pow2(k)))))
@@ -781,10 +785,27 @@ func (x *Exec) doSlice(st *State, s *ssa.Slice) Value {
 		p := x.deref(base)
 		at := p.Sub.Underlying().(*types.Array)
 		if p.Kind != pArr {
-			panic(unsupported{fmt.Sprintf("UNSUPPORTED slicing of an array embedded in another object in %s", x.funcName())})
+			// an array that lives inside another object (a struct field): the slice is a read-only view, a
+			// copy of the current contents in element memory. Writing through it, or handing it to a callee
+			// that may write, is refused (UNSUPPORTED) because the write would not reach the field.
+			x.nilCheck(st, s, "slice", base, p)
+			av := x.load(st, p)
+			r := x.allocRef(st, "arrayview")
+			x.initWrite = true
+			for k, lf := range flatten(at.Elem()) {
+				cur := x.heapCurE(st, "M", at.Elem(), lf)
+				x.heapSet(st, "M", at.Elem(), lf, mkStore(cur, r, av.L[k]))
+			}
+			x.initWrite = false
+			if x.views == nil {
+				x.views = map[string]bool{}
+			}
+			x.views[r.S] = true
+			arr, off, ln, cp = r, tZero, mkInt(at.Len()), mkInt(at.Len())
+		} else {
+			x.nilCheck(st, s, "slice", base, p)
+			arr, off, ln, cp = p.Obj, tZero, mkInt(at.Len()), mkInt(at.Len())
 		}
-		x.nilCheck(st, s, "slice", base, p)
-		arr, off, ln, cp = p.Obj, tZero, mkInt(at.Len()), mkInt(at.Len())
 	}
 	if s.High != nil {
 		hi = x.operand(st, s.High).one()
